@@ -17,8 +17,8 @@ WORKER_FUNCS_RCV = ["Worker::<MockSocket>::receive_file", "Worker::send_packet",
 WORKER_ASSUMPTIONS = [
     "peer/network = mock Socket: each recv returns an event chosen by the solver (kind, block number, payload bytes, clock advance <= 600 s)",
     "file system = one in-memory model file of <= 16 bytes (src/verif.rs): reads short only at EOF, no read errors",
-    "clock = virtual; only recv moves it",
-    "stubs: std::fmt::format -> empty String; std::thread::sleep -> no-op; Window::remove -> pop_front model (verified by c18_remove_equiv_*)",
+    "clock = virtual; moved by recv (symbolic advance per event) and by send_packet's 1 ms pause between the copies of a datagram (hook H4: crate::verif::sleep)",
+    "stubs: std::fmt::format -> empty String; Window::remove -> pop_front model (verified by c18_remove_equiv_*)",
     "shape parameters (W, blksize=2..3, pre-load, tail length, repeat count, number of events K) concrete per instance; after K events the path is cut",
     "states injected through the verif hooks are pre-EOF states (DESIGN 4.5); post-EOF states are entered by a real event",
     "negotiated timeout symbolic in 1..=255 s",
